@@ -177,7 +177,7 @@ prop("C18",
                            "inverse(forward(T)) consistency report at vendoring time"])
 
 prop("C11",
-     ["BL1", "BL2", "BL3", "TD1", "SR1", "TR1", "DL1", "SB1", "SZ1"],
+     ["BL1", "BL2", "BL3", "TD1", "SR1", "TR1", "TR2", "DL1", "SB1", "SZ1"],
      "The agreements the DAQmx index arithmetic rests on: record sizes vs formats, scaler type-code table, byte order threaded through "
      "every DAQmx parse site and decoder, sibling interface of the scaler classes and agreement of the three header sets, (length, width) "
      "role flow from get_buffer_dimensions into reads and seeks, scaler values = byte columns [offset, offset+size) of their own buffer, "
